@@ -53,13 +53,18 @@ class cpu_budget:
     Budgets are chosen >= 1000x the cost of an ordinary case, so exceeding one means the code under
     test loops without end (a definite failure of bounded progress), not slowness."""
 
+    exceeded = 0     # budgets exceeded in this process so far
+
     def __init__(self, seconds):
-        self.seconds = seconds
+        # once bounded progress has failed in this worker the verdict is a violation anyway: the following cases get a short leash, so
+        # that a tree on which every case loops is reported within the worker's wall-clock limit instead of running into it
+        self.seconds = seconds if not cpu_budget.exceeded else min(seconds, 2 if cpu_budget.exceeded < 3 else 0.3)
 
     def __enter__(self):
         import signal
 
         def fire(signum, frame):
+            cpu_budget.exceeded += 1
             raise BudgetExceeded('more than %ss CPU in one case' % self.seconds)
         self._old = signal.signal(signal.SIGVTALRM, fire)
         # repeating: the code under test may swallow the first exception (handlers run under `except BaseException`)
